@@ -7,6 +7,31 @@ ROOT = os.path.dirname(os.path.dirname(os.path.abspath(__file__)))
 ALL = [f"C{k:02d}" for k in range(1, 21)]
 
 CLAIMED = {
+    "C06": dict(
+        text=("TLC checks (Merge.tla) the exact transcription of merge_breakpoints for ALL combined-index shapes (4-5 rows, <=3 records "
+              "per row) x buffers (terminates, no index error, strictly increasing from 0, every record consumed, buffer respected "
+              "unless one row is larger), the merger for ALL pairs/triples of stores on 2 bins x buffers (= exact aggregate, sorted), "
+              "the first-pass grouping for ALL (chunk count <= 12/30, max_merge) and that unordered creation = aggregating all "
+              "chunks at once; the pinned grouping is kept as FirstPassEdgesPinned and refuted (defect F10, fixed). The real "
+              "create_cooler(ordered=False) is run for every chunk count 1..10 x max_merge and on random record bags with repeated "
+              "pixels x partitions x chunk orders x buffers x max_merge x storage modes with a private temp dir; TLC validates result "
+              "= aggregate, ValidCSR, no temp file left, and the pass structure taken."),
+        design_ref="DESIGN.md section 6 C06, section 4.8",
+        note="Trusted: TLC, structural projection. Chunks are duplicate-free internally (otherwise invalid input, C13).",
+        technique="TLA+ model checking (TLC) of the external merge + TLC trace validation of real unordered ingestion",
+        category="model_checking"),
+    "C07": dict(
+        text=("Same specification module (Merge.tla): merger output = MergeOf (per-pixel aggregate of the multiset union) for all small "
+              "input families and buffers; order independence and associativity as equalities of Layer D values. Real "
+              "merge_coolers / `cooler merge` runs on 1-4 inputs (incl. empty, identical supports) x buffers x input orders x 1-3 "
+              "value columns with sum/max/min x nested merges; int8/int16 values near the type limit (exact aggregate or an error, "
+              "never a different value); nine kinds of incompatible inputs must be refused; merge_breakpoints is validated at "
+              "function level on every small index family. TLC validates every outcome (MergeTrace.tla) incl. ValidCSR and total."),
+        design_ref="DESIGN.md section 6 C07, section 4.8",
+        note=("Trusted: TLC, structural projection. Overflow exercised with int8/int16 columns because TLC integers are 32-bit; the code "
+              "path is dtype-generic."),
+        technique="TLA+ model checking (TLC) of the merge algorithm + TLC trace validation of real merges",
+        category="model_checking"),
     "C01": dict(
         text=("Every created cooler is read back through the public API (pixel table with all value columns, dense and sparse full "
               "matrix, tables, metadata, assembly) and raw; TLC validates each read-back against the declarative data model "
